@@ -176,41 +176,105 @@ Arguments EnNoop {D E}.
 Arguments EvQuery {D E}. Arguments EvRequest {D E}. Arguments EvExecute {D E}. Arguments EvLoad {D E}.
 Arguments EvApply {D E}. Arguments EvSnapshot {D E}. Arguments EvBoot {D E}.
 
-(* ---- the instance the model is run with: the read-only pool changes nothing, the
-   read-write connection applies the statement's row changes ---- *)
+(* ---- histories of API calls on one live node -------------------------------------
+   The read-only pool protects the database only while its connections have query_only
+   set.  `h_ok` = every pooled read-only connection has it set; SQLite is now
+   `run_at ok pool sub d` (ok = the flag of the read-only connection used).  Each operation
+   has a footprint on the read-only pool (which of its steps use a pooled connection and
+   whether they touch the flag), transcribed from the code; an operation may end after any
+   prefix of its footprint (a step failed and it returned). *)
+Inductive bformat := BfBinary | BfSQL | BfDelete.
+
+Section History.
+  Variables D E : Type.
+  Variable run_at : bool -> pool -> sub E -> D -> D.
+
+  Inductive hop :=
+  | HDbQuery (r : request E) | HDbRequest (r : request E) | HDbExecute (r : request E)  (* on the database object *)
+  | HQuery (lv : level) (r : request E)        (* Store.Query, accepted by the breaking-PRAGMA guard *)
+  | HRequest (lv : level) (r : request E)      (* Store.Request, accepted *)
+  | HExecute (r : request E)                   (* Store.Execute, accepted *)
+  | HRefused                                   (* any Store endpoint: PragmaCheckRequest.Check refused, nothing ran *)
+  | HBackup (f : bformat) (vacuum : bool)      (* Store.Backup, successful or failing, any destination *)
+  | HSnapshot.                                 (* Store.Snapshot *)
+
+  Inductive roact :=
+  | RoTexts (r : request E)   (* client texts prepared/stepped on a pooled read-only connection; the guard
+                                 (C15) lets no statement through that sets query_only *)
+  | RoInternal                (* fixed internal reads: sqlite backup API source, Dump's SELECTs *)
+  | RoSetQO (b : bool).       (* PRAGMA query_only=b on the pooled connection *)
+
+  Definition ro_footprint (op : hop) : list roact :=
+    match op with
+    | HDbQuery r => [RoTexts r]                   (* QueryWithContext: roDB.Conn *)
+    | HDbRequest _ | HDbExecute _ => []           (* rwDB.Conn only *)
+    | HQuery _ r => [RoTexts r]                   (* local: QueryWithContext; strong: applied by the FSM through db.Query *)
+    | HRequest _ r => [RoTexts r]                 (* RORWCount -> StmtReadOnly prepares on roDB; local serve: QueryWithContext *)
+    | HExecute _ => []
+    | HRefused => []
+    | HBackup BfBinary false => []                (* snapshot + copy of the file *)
+    | HBackup BfBinary true => [RoInternal]       (* db.Backup -> copyDatabase: source connection from roDB *)
+    | HBackup BfDelete _ => [RoInternal]
+    | HBackup BfSQL _ => [RoInternal]             (* db.Dump on a roDB connection *)
+    | HSnapshot => []                             (* checkpoint on rwDB *)
+    end.
+
+  Definition flag_after (acts : list roact) (ok : bool) : bool :=
+    fold_left (fun ok a => match a with RoSetQO b => b | _ => ok end) acts ok.
+
+  Record hstate := { h_db : D; h_ok : bool }.
+
+  (* contents after the operation and whether the raft log grew *)
+  Definition hop_effect (ok : bool) (op : hop) (d : D) : D * bool :=
+    let run := run_at ok in
+    let via rt r :=
+      match rt with
+      | Local => (serve_local run r d, false)
+      | ViaLog e => (apply_entry run e d, true)
+      end in
+    match op with
+    | HDbQuery r => (db_query run r d, false)
+    | HDbRequest r => (db_request run r d, false)
+    | HDbExecute r => (db_execute run r d, false)
+    | HQuery lv r => via (@store_query D E lv r) r
+    | HRequest lv r => via (@store_request D E lv r) r
+    | HExecute r => via (@store_execute D E r) r
+    | HRefused | HBackup _ _ | HSnapshot => (d, false)
+    end.
+
+  (* exit = how many steps of the footprint ran before the operation returned *)
+  Definition hstep (exit : nat) (st : hstate) (op : hop) : hstate * bool :=
+    let '(d', app) := hop_effect (h_ok st) op (h_db st) in
+    ({| h_db := d'; h_ok := flag_after (firstn exit (ro_footprint op)) (h_ok st) |}, app).
+
+  Fixpoint hrun (st : hstate) (ops : list (nat * hop)) : hstate :=
+    match ops with
+    | [] => st
+    | (exit, op) :: rest => hrun (fst (hstep exit st op)) rest
+    end.
+End History.
+Arguments HRefused {E}. Arguments HSnapshot {E}. Arguments HBackup {E}.
+
+(* ---- the instance the model is run with: a read-only connection with query_only set
+   changes nothing; the read-write connection (and a read-only connection that lost
+   query_only, at worst) applies the statement's row changes ---- *)
 Definition t_run (p : pool) (s : sub (list rowop)) (d : table) : table :=
   match p with RO => d | RW => t_apply (sb_eff s) d end.
+Definition t_run_at (ok : bool) (p : pool) (s : sub (list rowop)) (d : table) : table :=
+  match p with RO => if ok then d else t_apply (sb_eff s) d | RW => t_apply (sb_eff s) d end.
 
-(* ---- correspondence ---- *)
-Inductive endpoint :=
-| DbQuery | DbRequest | DbExecute                       (* called on the node's database object directly *)
-| StQuery (lv : level) | StRequest (lv : level) | StExecute.   (* through the Store of a single-node cluster *)
-
-Record case := {
-  k_ep       : endpoint;
-  k_req      : request (list rowop);     (* ro flags and row changes measured per SQL statement, run alone *)
-  k_init     : table;
-  (* observed *)
-  k_final    : table;                    (* contents afterwards *)
-  k_appended : bool;                     (* the raft log grew *)
-  k_nrw      : option N                  (* Store.Request's count of read-write statements *)
+(* ---- correspondence: a case is a history on one live single-node Store ---- *)
+Record hobs := {
+  ob_final    : table;       (* contents after the operation, read by an independent connection *)
+  ob_appended : bool;        (* the raft log grew *)
+  ob_nrw      : option N;    (* Store.Request's count of read-write statements *)
+  ob_pool_ok  : bool         (* PRAGMA query_only read back through the read-only pool *)
 }.
 
-Definition model_case (c : case) : table * bool * option N :=
-  let req := k_req c in
-  let via rt :=
-    match rt with
-    | Local => (serve_local t_run req (k_init c), false)
-    | ViaLog e => (apply_entry t_run e (k_init c), true)
-    end in
-  match k_ep c with
-  | DbQuery => (db_query t_run req (k_init c), false, None)
-  | DbRequest => (db_request t_run req (k_init c), false, None)
-  | DbExecute => (db_execute t_run req (k_init c), false, None)
-  | StQuery lv => (via (@store_query table _ lv req), None)
-  | StRequest lv => (via (@store_request table _ lv req), Some (N.of_nat (n_rw req)))
-  | StExecute => (via (@store_execute table _ req), None)
-  end.
+Record case := {
+  k_init  : table;
+  k_steps : list (hop (list rowop) * hobs)
+}.
 
 Definition optN_eqb (a b : option N) : bool :=
   match a, b with
@@ -219,6 +283,18 @@ Definition optN_eqb (a b : option N) : bool :=
   | _, _ => false
   end.
 
+Definition model_nrw (op : hop (list rowop)) : option N :=
+  match op with HRequest _ r => Some (N.of_nat (n_rw r)) | _ => None end.
+
+Fixpoint check_steps (st : hstate table) (steps : list (hop (list rowop) * hobs)) : bool :=
+  match steps with
+  | [] => true
+  | (op, ob) :: rest =>
+    let '(st', app) := hstep t_run_at (length (ro_footprint op)) st op in
+    table_eqb (h_db st') (ob_final ob) && Bool.eqb app (ob_appended ob)
+    && optN_eqb (model_nrw op) (ob_nrw ob) && Bool.eqb (h_ok st') (ob_pool_ok ob)
+    && check_steps st' rest
+  end.
+
 Definition check_case (c : case) : bool :=
-  let '(fin, app, nrw) := model_case c in
-  table_eqb fin (k_final c) && Bool.eqb app (k_appended c) && optN_eqb nrw (k_nrw c).
+  check_steps {| h_db := k_init c; h_ok := true |} (k_steps c).
